@@ -608,6 +608,7 @@ pub fn run(ctx: &Ctx) -> i32 {
             }
             slot.end();
             col.count("histories", 1);
+            col.class(&format!("history:{kind}"));
             col.seen_hash(crate::collect::fnv(format!("{:?}", h.ops.len()).as_bytes()) ^ i);
             if i < 2 {
                 let mut hj = history_json(&h);
